@@ -3,6 +3,7 @@ package verifh
 import (
 	"errors"
 	"fmt"
+	"strconv"
 	"strings"
 	"testing"
 
@@ -85,6 +86,28 @@ func checkC06(c c06Case) verdict {
 			return bad(true, labels, "ValidateOCRA(the string returned for a neighbouring input, %q) = (%v, %v) but GenerateOCRA returns %q for this input", keep, ok2, err2, g)
 		}
 		labels = append(labels, "neighbour-as-returned")
+	}
+	// the decimal strings whose VALUE differs from the generated code by 2^31, 2^32, 2^63 or 2^64 modulo 10^digits: what a
+	// comparison carried out on numbers (a wrapped unsigned difference, a narrowed integer) takes for the code (C06-r18a)
+	if n := len(g); n >= 1 && n <= 10 && strings.Trim(g, "0123456789") == "" {
+		v, _ := strconv.ParseUint(g, 10, 64)
+		limit := uint64(1)
+		for i := 0; i < n; i++ {
+			limit *= 10
+		}
+		h63 := (uint64(1) << 63) % limit
+		for _, m := range []uint64{(1 << 31) % limit, (1 << 32) % limit, h63, h63 * 2 % limit} {
+			for _, a := range []uint64{(v + m) % limit, (v + limit - m) % limit} {
+				s := fmt.Sprintf("%0*d", n, a)
+				if s == g {
+					continue
+				}
+				if ok3, err3 := otp.ValidateOCRA(c.Secret, s, suite, in); ok3 || err3 == nil {
+					return bad(true, append(labels, "modular-alias"), "ValidateOCRA(%q) = (%v, %v) but GenerateOCRA returns %q for the same secret, suite and input (the values differ by a power of two modulo 10^%d)", s, ok3, err3, g, n)
+				}
+			}
+		}
+		labels = append(labels, "modular-aliases")
 	}
 	return ok(nt || want && c.Origin != "generated", labels...)
 }
